@@ -79,6 +79,10 @@ def _mk_obj(bb, inp, facts=None):
         kw["signature"] = list(bb.signature)
     if facts is not None:
         kw["facts"] = list(facts)
+        if inp.get("facts_as_fnode"):
+            from parser.Wrappers import parse_formula
+
+            kw["facts"] = [parse_formula(f) for f in facts]
     return PreOCF.init_system_z(bb, extended=inp["extended"], **kw)
 
 
@@ -87,6 +91,13 @@ def _oracle(inp, conds, extra=()):
 
     sem = Sem(conds, list(extra), inp["signature"])
     return sem, Answers(sem, inp["mode"] == "extended")
+
+
+def unknown_in(facts, sig):
+    """atoms mentioned by the fact texts that are not in the signature (CL identifiers)"""
+    import re
+
+    return sorted({t for f in facts for t in re.findall(r"[A-Za-z_][A-Za-z_0-9]*", f) if t not in set(sig) and t not in ("Top", "Bottom")})
 
 
 def _has_ranking(ans):
@@ -207,9 +218,7 @@ def judge(inp):
         facts = list(inp["facts"])
         sig = set(inp["signature"])
         # which atoms does a fact mention (by the definition of the CL syntax: identifiers)
-        import re
-
-        unknown = sorted({t for f in facts for t in re.findall(r"[A-Za-z_][A-Za-z_0-9]*", f) if t not in sig and t not in ("Top", "Bottom")})
+        unknown = unknown_in(facts, sig)
         try:
             obj = _mk_obj(bb, inp, facts=facts)
             err = None
@@ -334,7 +343,8 @@ def _case(args):
     base = {"signature": list(sig), "bb_signature": list(bb_sig), "conditionals": {str(k): f"({b}|{a})" for k, (b, a) in cond_texts.items()}}
     conds, bb, order = _build(base)
     queries = [mkcond(b, a) for (b, a) in query_texts]
-    sem = Sem(conds, [f for q in queries for f in (q.antecedence, q.consequence)], sig)
+    sem = Sem(conds, [], sig)
+    semq = Sem(conds, [f for q in queries for f in (q.antecedence, q.consequence)], sig)  # queries may mention further atoms
     fp_base = tuple(sorted((tuple(sorted(sem.ver[k])), tuple(sorted(sem.fal[k]))) for k in sem.keys))
     bits = _bits(sem, order)
     worlds = [bits[w] for w in sorted(sem.U)]
@@ -364,11 +374,12 @@ def _case(args):
             do(dict(cfg, check="lazy-order", order=o), _fp(fp_base, mode, "order", o))
         do(dict(cfg, check="all-at-once"), _fp(fp_base, mode, "all"))
         do(dict(cfg, check="base-accept", precompute=rng.random() < 0.5), _fp(fp_base, mode, "base-accept"))
-        qs = [q for q in queries if sem.q(q)[0] & ans.feas][:6]
+        ansq = Answers(semq, mode == "extended")
+        qs = [q for q in queries if semq.q(q)[0] & ansq.feas][:6]
         if qs and conds:  # the operator refuses an empty base (C06), nothing to compare with
             do(
                 dict(cfg, check="queries", queries=[str(q) for q in qs], precompute=rng.random() < 0.5),
-                _fp(fp_base, mode, "queries", sorted((tuple(sorted(sem.q(q)[1])), tuple(sorted(sem.q(q)[2]))) for q in qs)),
+                _fp(fp_base, mode, "queries", semq.sig, sorted((tuple(sorted(semq.q(q)[1])), tuple(sorted(semq.q(q)[2]))) for q in qs)),
             )
     out["rejected"] = not any_mode
     # facts (the base need not be consistent: the augmented base decides)
@@ -377,6 +388,8 @@ def _case(args):
             if ext_flag is False and rng.random() < 0.5:
                 continue
             inp = dict(base, check="facts", mode="extended" if ext_flag is not False else "strict", extended=ext_flag, facts=list(facts), pass_signature=rng.random() < 0.3)
+            if facts and not unknown_in(facts, sig) and rng.random() < 0.25:
+                inp["facts_as_fnode"] = True  # facts may be given as formula objects
             if rng.random() < 0.5:
                 inp["order"] = rng.sample(worlds, len(worlds))
             do(inp, _fp(fp_base, "facts", ext_flag, facts, bool(inp.get("order"))))
@@ -427,6 +440,14 @@ def _facts3(rng, sig):
 SIZES = {"quick": (200, 100, 4, 3), "thorough": (None, 1000, None, 6)}
 
 
+def _rekey(rng, cond_texts):
+    """now and then other keys than 1..n (the ranking object is defined for any keys)"""
+    if not cond_texts or rng.random() >= 0.15:
+        return cond_texts
+    ks = sorted(rng.sample(range(0, 10), len(cond_texts)))
+    return {nk: v for nk, (_, v) in zip(ks, sorted(cond_texts.items()))}
+
+
 def build_cases(tier, seed):
     rng = random.Random(seed)
     n2, n3, o2, o3 = SIZES[tier]
@@ -436,17 +457,20 @@ def build_cases(tier, seed):
         qs = distinct_queries(s2_queries(rng, False, 14))
         bb_sig = list(sig) if rng.random() < 0.5 else list(reversed(sig))
         facts = rng.sample(FACTS2, 3)
-        cases.append((list(sig), bb_sig, {k: split_text(str(c)) for k, c in conds.items()}, [split_text(str(q)) for q in qs], facts, exhaustive, o2 or 0, rng.randrange(10**9)))
+        cases.append((list(sig), bb_sig, _rekey(rng, {k: split_text(str(c)) for k, c in conds.items()}), [split_text(str(q)) for q in qs], facts, exhaustive, o2 or 0, rng.randrange(10**9)))
     # the empty base: consistent, kz = 0 everywhere
     cases.append((list(ATOMS2), list(ATOMS2), {}, [split_text(str(q)) for q in distinct_queries(s2_queries(rng, False, 6))], [[], ["a"], ["a", "!a"]], exhaustive, o2 or 0, rng.randrange(10**9)))
     for _ in range(n3):
         sig, conds = s3_base(rng, consts=0.1)
-        qs = distinct_queries([rnd_conditional(rng, sig, 2, 0.08) for _ in range(12)])
+        qs = [rnd_conditional(rng, sig, 2, 0.08) for _ in range(12)]
+        if rng.random() < 0.2:  # a query mentioning an atom outside the signature
+            qs.insert(0, rnd_conditional(rng, list(sig) + ["z"], 1, 0.0))
+        qs = distinct_queries(qs)
         bb_sig = list(sig)
         if rng.random() < 0.5:
             rng.shuffle(bb_sig)
         facts = [_facts3(rng, sig) for _ in range(2)]
-        cases.append((list(sig), bb_sig, {k: split_text(str(c)) for k, c in conds.items()}, [split_text(str(q)) for q in qs], facts, False, o3, rng.randrange(10**9)))
+        cases.append((list(sig), bb_sig, _rekey(rng, {k: split_text(str(c)) for k, c in conds.items()}), [split_text(str(q)) for q in qs], facts, False, o3, rng.randrange(10**9)))
     return cases
 
 
